@@ -132,7 +132,8 @@ def streams(ctx: C.Ctx):
                 resign.append(C.un_ut(o2[3:]))
     ctx.run_cases(SIGN, "signing-what-is-already-signed", resign, exhaustive=False, sample_every=max(1, len(resign) // 2))
     # malformed
-    bad = ["just a regular string", "0", "abc", "zz", "0g", " 00", "00 ", "0x00", "é0", "٠٠", "00\n", "+1", "f" * 4097]
+    bad = ["fe f0 31", "aabb  ", "  ", "aa bb ", " aabb ", "aa\tbb\t", "aabb\n\n", "\n\naabb", "aa  bb", "    ", "aabb \n",
+           "just a regular string", "0", "abc", "zz", "0g", " 00", "00 ", "0x00", "é0", "٠٠", "00\n", "+1", "f" * 4097]
     for _ in range(ctx.n(300, 3000)):
         h = list(rng.randbytes(rng.randrange(0, 20)).hex())
         k = rng.random()
@@ -140,8 +141,11 @@ def streams(ctx: C.Ctx):
             h[rng.randrange(len(h))] = rng.choice("ghxyzGXZ _-\téא１")
         elif k < .7:
             h.append(rng.choice("0123456789abcdef"))
-        else:
+        elif k < .85:
             h.insert(rng.randrange(len(h) + 1), rng.choice("gG: ."))
+        else:       # blanks exactly where a tolerant parser would skip them: between two byte pairs, in pairs (the length stays even)
+            at = 2 * rng.randrange(len(h) // 2 + 1)
+            h[at:at] = list(rng.choice(["  ", " \t", "\n\n", "    ", "\r\n"]))
         bad.append("".join(h))
     ctx.run_cases(SIGN, "malformed", bad, exhaustive=False)
     # crc_hqx itself against the bit-serial Spec
